@@ -48,7 +48,14 @@ def handleParse : List Sx → String
           else if balanced toks then
             let want := pre.exec ++ (descend toks []).1
             if encList (o.exec.map encItem) == encList (want.map encItem) then ""
-            else " PROPFAIL C03 EXEC is not the token tree: expected " ++ encList (want.map encItem)
+            else " PROPFAIL C03 EXEC is not the token tree: expected " ++ encList (want.map encItem) ++
+              -- C07: a name is looked up when the interpreter ENCOUNTERS it; program text that mentions a name the
+              -- state already binds must still yield the NAME item (else quote / redefine of that name are lost)
+              (if toks.any (fun t => match t with
+                  | .atom (.ident n) => pre.bindings.any (fun b => b.1 == n)
+                  | _ => false)
+               then " PROPFAIL C07 a name bound in the state was not parsed into a NAME item (lookup happens at the encounter, so that NAME.QUOTE and a later definition can take effect)"
+               else "")
           else ""
       if mm == "" && pf == "" then (if toks.isEmpty then "ok T" else "ok N") else "no" ++ mm ++ pf
     | _, _, _ => "bad state"
